@@ -54,6 +54,9 @@ LiftLemma == (done /\ CheckLift /\ Len(n) > 0) =>
      /\ RFindSub(H, N) = MapI(RFindSub(h, n), s, p[1])
      /\ GreedyFwd(H, N) = MapSeq(GreedyFwd(h, n), s, p[1])
      /\ GreedyRev(H, N) = MapSeq(GreedyRev(h, n), s, p[1])
+\* ScanLemma: the set-based oracles of Bytes coincide with their reading as left-to-right / right-to-left scans
+ScanLemma == done => /\ FindSub(h, n) = FindFrom(h, n, 0)
+                     /\ RFindSub(h, n) = RFindFrom(h, n, Len(h) - Len(n))
 \* TruncLemma: the leftmost occurrence in a prefix of the haystack (the rightmost in a suffix) follows from the
 \* full-haystack oracle -- used by the slow vehicles to probe boundary lengths without new oracle runs.
 TruncLemma == done =>
